@@ -154,6 +154,7 @@ func (d *Decrypter) processJoinRequest(decoded server.LoRaMessage) bool {
 	// message for it. TODO (stalehd): this is butt ugly. Needs redesign.
 	decoded.Payload.MACPayload.FHDR.DevAddr = joinAccept.DevAddr
 
+	stage("decrypter.emit", device.DeviceEUI.String())
 	d.macOutput <- decoded
 	return true
 }
